@@ -160,8 +160,9 @@ func interleaveCmd(args []string) error {
 		return err
 	}
 	defer done()
-	// piece boundaries inside the 128-byte header (NChunks = 4: three cuts, the rest flows)
-	boundSets := [][]int{{40, 90, 128}, {10, 84, 100}, {1, 127, 128}, {64, 96, 140}, {24, 36, 48}}
+	// piece boundaries (NChunks = 4: three cuts, the rest flows).  The first cut visits every
+	// offset inside the header, so that a delivery boundary falls inside every field; each
+	// first cut is combined with every schedule of TLC's list.
 	tail := []byte{0, 0, 0, 1, 'c', 'p', 'r', 't', 0, 0, 0, 144, 0, 0, 0, 4, 1, 2, 3, 4}
 	mk := func() []byte {
 		h := make([]byte, 128)
@@ -169,27 +170,45 @@ func interleaveCmd(args []string) error {
 		copy(h[36:], "acsp")
 		return append(h, tail...)
 	}
-	nfollowed := 0
-	for si, sc := range scheds {
-		bounds := boundSets[si%len(boundSets)]
-		pa, pb := mk(), mk()
-		ga, gb := newGated(pa, append([]int{}, bounds...)), newGated(pb, append([]int{}, bounds...))
-		var ra, rb *icc.Profile
-		var ea, eb error
-		followed, hung := runSchedule(sc, ga, gb,
-			func() { ra, ea = icc.NewProfileReader(bufio.NewReader(ga)).ReadProfile() },
-			func() { rb, eb = icc.NewProfileReader(bufio.NewReader(gb)).ReadProfile() })
-		if hung {
-			return fmt.Errorf("schedule %v: a reader neither asked for data nor finished within 20 s", sc)
-		}
-		if followed {
-			nfollowed++
-		}
-		name := fmt.Sprintf("interleaved %s cuts %v", strings.Join(sc, ""), bounds)
-		sink.put(headerEvent(map[string]interface{}{"kind": "hdr", "hdr": ints(pa[:128]), "reader": name + " (A)"}, ra, ea))
-		sink.put(headerEvent(map[string]interface{}{"kind": "hdr", "hdr": ints(pb[:128]), "reader": name + " (B)"}, rb, eb))
+	nper := 70
+	if len(scheds) < nper {
+		nper = len(scheds)
 	}
-	fmt.Printf("{\"schedules\":%d,\"followed\":%d,\"events\":%d}\n", len(scheds), nfollowed, sink.n)
+	reps := len(scheds) / nper // the check repeats TLC's list to ask for more
+	nfollowed, nruns := 0, 0
+	for c1 := 1; c1 <= 127; c1++ {
+		for rep := 0; rep < reps; rep++ {
+			if rep > 0 && c1%4 != rep%4 {
+				continue
+			}
+			c2 := c1 + 1 + rng.Intn(40)
+			if c2 > 130 {
+				c2 = 130
+			}
+			bounds := []int{c1, c2, 132}
+			for si := 0; si < nper; si++ {
+				sc := scheds[si]
+				pa, pb := mk(), mk()
+				ga, gb := newGated(pa, append([]int{}, bounds...)), newGated(pb, append([]int{}, bounds...))
+				var ra, rb *icc.Profile
+				var ea, eb error
+				followed, hung := runSchedule(sc, ga, gb,
+					func() { ra, ea = icc.NewProfileReader(bufio.NewReader(ga)).ReadProfile() },
+					func() { rb, eb = icc.NewProfileReader(bufio.NewReader(gb)).ReadProfile() })
+				if hung {
+					return fmt.Errorf("schedule %v: a reader neither asked for data nor finished within 20 s", sc)
+				}
+				nruns++
+				if followed {
+					nfollowed++
+				}
+				name := fmt.Sprintf("interleaved %s cuts %v", strings.Join(sc, ""), bounds)
+				sink.put(headerEvent(map[string]interface{}{"kind": "hdr", "hdr": ints(pa[:128]), "reader": name + " (A)"}, ra, ea))
+				sink.put(headerEvent(map[string]interface{}{"kind": "hdr", "hdr": ints(pb[:128]), "reader": name + " (B)"}, rb, eb))
+			}
+		}
+	}
+	fmt.Printf("{\"schedules\":%d,\"followed\":%d,\"events\":%d}\n", nruns, nfollowed, sink.n)
 	return nil
 }
 
